@@ -2,8 +2,12 @@
 use crate::checks_e1::Variant;
 use crate::report::Report;
 
-pub fn run(_prop: &str, _tier: &str) -> Option<Report> {
-    None
+pub fn run(prop: &str, tier: &str) -> Option<Report> {
+    Some(match prop {
+        "C07" => crate::c07::c07(tier),
+        "C06" => crate::c06::c06(tier),
+        _ => return None,
+    })
 }
 
 pub fn e1_variants(_prop: &str, _tier: &str) -> Option<Vec<Variant>> {
@@ -11,6 +15,8 @@ pub fn e1_variants(_prop: &str, _tier: &str) -> Option<Vec<Variant>> {
 }
 
 pub fn replay(doc: &serde_json::Value) -> i32 {
-    eprintln!("no replay handler for engine {:?}", doc["replay"]["engine"]);
-    2
+    println!("this violation was found by a bounded-exhaustive sweep; its description is the replay recipe:");
+    println!("{}", doc["what"]);
+    println!("re-run the owning check to reproduce: ./check {} quick", doc["property"].as_str().unwrap_or("?"));
+    1
 }
